@@ -365,7 +365,9 @@ broadcast use crate::wspec::group_wrote;''')
     ce.clean()
     ce.own(OWN)
     ce.splice('has_augmentation', ret='res', ensures=['res == self.has_aug()'])
-    ce.splice('write', ret='res', attrs='#[verifier::loop_isolation(false)]', ensures=[
+    # checkpoint after the return address register (ghost only): the fixed header is complete
+    ce.insert_before('if augmentation {', 'let ghost v3 = w.wv();\nproof { reveal(CommonInformationEntry::after_fixed_header); assert(v3 == self.after_fixed_header(old(w).wv(), eh_frame)); }\n', nth=1)
+    ce.splice('write', ret='res', ensures=[
         f'[C14:cie-offset] res matches Ok(off) ==> off as nat == {W0}.len',
         f'[C14:cie-version] res is Ok ==> cfi_version_ok(eh_frame, {ENC}.version)',
         # FAILS on the pinned tree: the address size is never validated (finding F-wcfi-3)
@@ -375,8 +377,11 @@ broadcast use crate::wspec::group_wrote;''')
         f'[C14:cie-closed] res is Ok ==> entry_closed({W0}, {W1}, {ENC}.format)',
         # 6.4.1: "The size of the length field plus the value of length must be an integral multiple of the address size."
         f'[C14:cie-pad] res is Ok ==> ({W1}.len - {W0}.len) % ({ENC}.address_size as int) == 0',
-        FRAME],
-        before=[('for instruction in &self.instructions', 'let ghost hv = w.wv();\nproof { assert(hv == self.after_header(old(w).wv(), eh_frame)); }'),
+        # (nothing is claimed about the section after an error: the entry is incomplete and the caller gives up)
+        f'[C14:frame] res is Ok ==> grew({W0}, {W1})'],
+        before=[('let augmentation = self.has_augmentation();', 'let ghost v1 = w.wv();\nproof { assert(v1 == after_cie_start(old(w).wv(), eh_frame, encoding)); }'),
+                ('if encoding.version >= 4 {', 'let ghost v2 = w.wv();\nproof { reveal(CommonInformationEntry::after_aug_string); assert(v2 == self.after_aug_string(v1)); }'),
+                ('for instruction in &self.instructions', 'let ghost hv = w.wv();\nproof { reveal(CommonInformationEntry::after_aug_data); assert(hv == self.after_header(old(w).wv(), eh_frame)); self.lemma_header_grew(old(w).wv(), eh_frame); }'),
                 ('write_nop(', 'proof { axiom_section_len::<W>(*w); }')],
         loops={0: 'invariant grew(hv, w.wv())'})
     sk.add('write::cfi', ce)
